@@ -128,6 +128,30 @@ def check_C01(tier: str, seed: int) -> int:
             ch["pad_frame0_to"], ch["pad_count"] = 65535, cnt
             data = gen.encode(s, ch, rng)
             cases.append((w.put(data), s, data))
+        # a chunk of more than a megabyte (a stored 600 x 500 RGBA cel in frame 0; a 1.3 MB tileset) FOLLOWED by all the other
+        # chunks of a rich sprite: whatever is kept between chunks (buffers sized by the previous payload) must not leak
+        for kind in ("cel", "tileset"):
+            nbig += 1
+            while True:
+                s = gen.gen_sprite(rng, max_canvas=6, max_layers=4, max_frames=2)
+                if s["depth"] == 32 and s["layers"] and s["layers"][0]["ltype"] == 0 and (kind == "cel" or s["tilesets"]):
+                    break
+            ch = gen.default_choices()
+            if kind == "cel":
+                s["width"], s["height"] = 600, 500
+                s["cels"][(0, 0)] = {"kind": "raw", "x": 0, "y": 0, "w": 600, "h": 500, "opacity": 255, "ud": None,
+                                     "pixels": [((i * 3) & 255, (i >> 8) & 255, (i * 7) & 255, 255) for i in range(600 * 500)]}
+                ch["cel_storage"] = "raw"
+            else:
+                t = s["tilesets"][0]
+                t["tw"], t["th"], t["count"] = 64, 64, 80
+                t["pixels"] = [((i * 5) & 255, (i >> 7) & 255, (i * 11) & 255, 255 if i >= 64 * 64 else 0) for i in range(64 * 64 * 80)]
+                ch["zlevels"] = ["stored"]
+                for c in s["cels"].values():
+                    if c["kind"] == "tilemap":
+                        c["tiles"] = [min(tt, 79) for tt in c["tiles"]]
+            data = gen.encode(s, ch, rng)
+            cases.append((w.put(data), s, data))
         corpus = corpus_files()
         paths = [c[0] for c in cases] + corpus
         # what the sprite reports must not depend on how the reader hands over the bytes (one at a time, 7 at a time, from a file)
@@ -368,6 +392,17 @@ def special_files(rng: random.Random) -> List[Tuple[str, bytes]]:
             out.append(("empty_tileset_%dx%d_cel_%dx%d" % (tw, th, cw, chh),
                         ts_sprite(ase.TilesetChunk(id=0, tile_count=0, tile_w=tw, tile_h=th, pixels=b""),
                                   ase.CelChunk(layer=0, ctype_cel=3, w=cw, h=chh, zraw=ase.deflate(b"\0" * (4 * cw * chh))))))
+    # a chain of linked cels: frame k links to frame k - 1 (a link to a link is refused at load; were it accepted, a renderer
+    # that follows links would have to follow 39 of them)
+    for n in (3, 40):
+        frs = [ase.Frame(chunks=[ase.LayerChunk(), ase.CelChunk(layer=0, w=1, h=1, pixels=b"\1\2\3\4", ctype_cel=0)])]
+        frs += [ase.Frame(chunks=[ase.CelChunk(layer=0, ctype_cel=1, linked=k - 1)]) for k in range(1, n)]
+        out.append(("link_chain_%d" % n, ase.serialize(ase.Sprite(width=1, height=1, frames=frs))))
+    # a stored cel of more than a megabyte followed by other chunks
+    big = bytes((i * 7) & 255 for i in range(600 * 500 * 4))
+    out.append(("big_cel_then_chunks", ase.serialize(ase.Sprite(width=600, height=500, frames=[ase.Frame(chunks=[
+        ase.LayerChunk(name="a"), ase.CelChunk(layer=0, w=600, h=500, pixels=big, ctype_cel=0), ase.LayerChunk(name="b", level=0),
+        ase.TagsChunk(tags=[ase.Tag(name="t1"), ase.Tag(name="t2")]), ase.UserDataChunk(text="u")])]))))
     return out
 
 
